@@ -34,6 +34,7 @@ MODEL_SWITCHES = [
     ("MC_Conc7", "MC_Conc7_bug1.cfg", "LinOK", "get_child_of accepts a deleted child: descent through a collapsed interior (seed C08d)"),
     ("MC_Conc7", "MC_Conc7_bug2.cfg", "SwapOK", "lock_parent of a collapsing interior without the re-check of its parent"),
     ("YkEpoch", "MC_Epoch_bug.cfg", "SafeStrong", "F5: two-step enter"),
+    ("YkEpoch", "MC_Epoch_bug2.cfg", "SafeStrong", "seed C07d: leave releases the slot before it clears the begin epoch (LEAVE_SWAPPED)"),
     ("YkLife", "MC_Life_bug.cfg", "ThreadsAliveWhileRunning", "F4: stop flags not cleared"),
     ("MC_Iscan", "MC_Iscan_bug15.cfg", "IscanPhantomOK", "F15: cursor opened in the gap between two entries of one absent slice reports no border"),
     ("MC_Iscan", "MC_Iscan_bug16.cfg", "IscanPhantomOK", "F16: end-of-border callback skipped when the cursor position equals the max sentinel"),
